@@ -2,7 +2,8 @@
 
 Model checking: explicit-state BFS over histories of state mutations (c04_ops.py) of reactors built
 from generated blueprints (hex third core with pin lattice, hex full core corners-up, Cartesian
-quarter and full core; each with a spent fuel pool holding one assembly).  In EVERY reached state
+quarter (offset grid) and full core, theta-R-Z quarter core; each with a spent fuel pool holding one
+or two assemblies).  In EVERY reached state
 the real ``armi.bookkeeping.db.database.Database`` is driven:
 
     f1 = write(r);  x = load(f1);  y = load(f1);  f2 = write(x);  z = load(f2)
@@ -21,8 +22,11 @@ replaced by ranks; the differential oracle compares the *loaded* observation of 
 reach the same canonical state.
 
 Violation keys name the failing relation, the object group and the field, e.g.
-``c04/write-load/Block/params/mgFlux``; four mechanisms recognised exactly get their own key
-(``_SPECIAL``), so that each can be handled separately.
+``c04/write-load/Block/params/mgFlux``; six mechanisms recognised exactly get their own key
+(``_special``: K_MODAREA, K_COORD, K_COORD_NOGRID, K_GEOMTYPE, K_BLOCKGRID, K_NODEFAULT), so that
+each can be handled separately.  A class that is already red in a family's *initial* state is
+reported from there and not again from deeper states of that family (``base_keys``), so that the
+search continues below an open defect; once /repo is repaired nothing is suppressed.
 """
 import os
 import re
@@ -36,19 +40,24 @@ LEVEL = "model_checking"
 MOD = "mcverif.checks.c04"
 
 # ---- bounds (one place) -------------------------------------------------------------------------
-# depth per family and tier; quick: depth 1 everywhere + depth 2 for the pin-lattice hex family.
-DEPTH = {
-    "quick": {"hex3pins": 2, "hexfullcu": 1, "cartq": 1, "cartfull": 1},
-    "thorough": {"hex3pins": 3, "hexfullcu": 2, "cartq": 2, "cartfull": 2},
+# per tier and family: the alphabet of each level of the search (depth = number of levels).
+# FULL = whole alphabet of c04_ops (33-41 operations), SUB2 (20) and SUB3 (14) nested subsets.
+# Explored: every history of length n whose operations all belong to the level-n alphabet
+# (each operation at most once per history).
+LEVELS = {
+    "quick": {"hex3pins": ["FULL", "SUB2"], "hexfullcu": ["FULL"], "cartq": ["FULL", "SUB2"], "cartfull": ["FULL"], "trz": ["FULL"]},
+    "thorough": {"hex3pins": ["FULL", "FULL", "SUB3"], "hexfullcu": ["FULL", "FULL"], "cartq": ["FULL", "FULL"], "cartfull": ["FULL", "FULL"], "trz": ["FULL", "FULL"]},
 }
-# the third level of the thorough tier is restricted to this sub-alphabet (one op per mechanism)
-MAX_STATES = {"quick": None, "thorough": 14000}
+MAX_STATES = {"quick": None, "thorough": None}
 
 # Derived aggregates are sums whose order of association legitimately differs after a load
 # (the loader sorts children; number-density dictionaries come back in sorted nuclide order):
 # mass = sum over nuclides, block volume/mass = sum over children. 1e-12 >> n*eps for n <= 60 terms.
 RTOL_SUMS = 1e-12
 _SUM_FIELDS = ("comp/mass", "geom/mass", "geom/volume")
+# Block parameters that Core.processLoading(dbLoad=True) / setBlockMassParams() RE-COMPUTE on both
+# sides as sums of nuclide masses / moles over the children (not stored values passing through):
+_SUM_FIELDS_BLOCK = ("params/kgHM", "params/kgFis", "params/puFrac")
 # Everything else (parameters, number densities, dimensions, temperatures, component volume/area,
 # heights, locations, grids, coordinates) is a pass-through and compared bit-exact.
 
@@ -192,15 +201,9 @@ def _local(n):
     return {k: v for k, v in n.items() if k != "children"}
 
 
-def _normstr(v):
-    """np.str_ is a str: the numpy flavour of a name is not part of the observation."""
-    if isinstance(v, str):
-        return str(v)
-    if isinstance(v, list):
-        return [_normstr(x) for x in v]
-    if isinstance(v, dict):
-        return {str(k): _normstr(x) for k, x in v.items()}
-    return v
+def _same_text(x, y):
+    """np.str_ is a str: the numpy flavour of a name / nuclide key is not part of the observation."""
+    return isinstance(x, str) and isinstance(y, str) and str(x) == str(y)
 
 
 K_MODAREA = "modarea-none-loads-as-zero"
@@ -208,21 +211,29 @@ K_COORD = "coordinate-location-loads-as-index-location"
 K_COORD_NOGRID = "gridless-coordinate-location-loads-onto-parent-grid"
 K_GEOMTYPE = "grid-geomtype-hex-corners-up-loads-as-hex"
 K_BLOCKGRID = "block-grid-anchored-to-other-object-in-memory"
+K_NODEFAULT = "partially-assigned-nodefault-parameter-not-written"
+_LOCFIELDS = ("loc/kind", "loc/xyz", "loc/idx", "x/gxyz")
 
 
 def _special(group, field, detail, a, b):
-    """Mechanisms recognised exactly (own key each). Returns key suffix or None."""
+    """Mechanisms recognised exactly in the write-load relation (own key each) -> key suffix or None."""
     if group == "Component":
         if field in ("params/modArea", "comp/dims/modArea", "comp/dims/modArea@hot") and detail == "None vs 0":
             return K_MODAREA
         la, lb = a.get("loc") or {}, b.get("loc") or {}
-        if la.get("kind") == "coord" and lb.get("kind") == "index":
+        if la.get("kind") == "coord" and la.get("grid") is None and lb.get("grid") == "parent":
+            # a component that is in no grid although its block has one (Cartesian blocks) is
+            # put into the block's grid by the loader (as index or as coordinate location)
+            if field in _LOCFIELDS + ("loc/grid",):
+                return K_COORD_NOGRID
+        elif la.get("kind") == "coord" and lb.get("kind") == "index":
             # a free coordinate written as type 'C' comes back as grid[(x, y, z)] of the parent
-            if la.get("grid") is None:
-                if field in ("loc/kind", "loc/xyz", "loc/idx", "loc/grid", "x/gxyz"):
-                    return K_COORD_NOGRID
-            elif field in ("loc/kind", "loc/xyz", "loc/idx", "x/gxyz"):
+            if field in _LOCFIELDS:
                 return K_COORD
+    if field.startswith("params/") and detail.endswith(" vs '<raises ParameterError>'") and not detail.startswith("'<raises"):
+        # assigned in memory, undefined after the load: the writer drops a whole column as soon
+        # as one object of the class has no value and the parameter has no default
+        return K_NODEFAULT
     if field == "grid/reduce" and detail == "'hex_corners_up' vs 'hex'":
         return K_GEOMTYPE
     if group == "Block" and field == "grid/owner_ok" and detail == "False vs True":
@@ -230,15 +241,21 @@ def _special(group, field, detail, a, b):
     return None
 
 
-def compare(a, b, relation, path="", out=None):
-    """Walks two observations in parallel. -> list of (key, message)."""
+def compare(a, b, relation, path="", out=None, tainted=None):
+    """Walks two observations in parallel. -> list of (key, message).
+
+    ``tainted``: {node path: key} filled by the write-load relation for nodes whose free
+    coordinate came back as an index location; the later relations (which start from that
+    loaded reactor) attribute location differences of the same nodes to the same key.
+    """
     if out is None:
         out = []
+    if tainted is None:
+        tainted = {}
     grp = _group(a.get("cls"))
     here = "%s/%s" % (path, a.get("name")) if path else str(a.get("name"))
-    la, lb = _normstr(_local(a)), _normstr(_local(b))
-    lines = observe.diff(la, lb, limit=100000)
-    for ln in lines:
+    la, lb = _local(a), _local(b)
+    for ln in observe.diff(la, lb, limit=100000):
         m = _LINE.match(ln)
         p, detail = (m.group(1), m.group(2)) if m else (ln, "")
         field = _IDX.sub("", p).strip("/")
@@ -246,17 +263,26 @@ def compare(a, b, relation, path="", out=None):
             field = "comp/nd"
         if field.startswith("x/gxyz"):
             field = "x/gxyz"
-        if any(field == f for f in _SUM_FIELDS):
-            if not observe.diff(_dig(la, p), _dig(lb, p), rtol=RTOL_SUMS):
+        if " vs " in detail:
+            va, vb = _dig(la, p), _dig(lb, p)
+            if _same_text(va, vb):
                 continue
-        sp = _special(grp, field, detail, a, b) if relation == "write-load" else None
+            if (field in _SUM_FIELDS or (grp == "Block" and field in _SUM_FIELDS_BLOCK)) and not observe.diff(va, vb, rtol=RTOL_SUMS):
+                continue
+        sp = None
+        if relation == "write-load":
+            sp = _special(grp, field, detail, a, b)
+            if sp in (K_COORD, K_COORD_NOGRID):
+                tainted[here] = sp
+        elif here in tainted and field in _LOCFIELDS + ("loc/grid",):
+            sp = tainted[here]
         key = "c04/" + sp if sp else "c04/%s/%s/%s" % (relation, grp, field)
         out.append((key, "%s [%s] %s: %s" % (here, a.get("cls"), p, detail[:160])))
     ca, cb = a["children"], b["children"]
     if len(ca) != len(cb):
         out.append(("c04/%s/%s/children-count" % (relation, grp), "%s [%s]: %d vs %d children" % (here, a.get("cls"), len(ca), len(cb))))
     for x, y in zip(ca, cb):
-        compare(x, y, relation, here, out)
+        compare(x, y, relation, here, out, tainted)
     return out
 
 
@@ -294,19 +320,34 @@ def _load(fname, cycle, node, cs, bp):
         db.close()
 
 
+class Unwritable(Exception):
+    """The writer refused the original state (value kinds the format cannot hold: C05's domain)."""
+
+
 def check_state(r, cs, bp):
     """-> (list of (key,msg), canon digest, loaded digest, stats)"""
     found = []
     d = env.fresh_dir("c04")
     cwd = os.getcwd()
     os.chdir(d)
+    x = y = z = None
     try:
         cyc, node = int(r.p.cycle), int(r.p.timeNode)
-        _write(r, "a.h5")
-        x = _load("a.h5", cyc, node, cs, bp)
-        y = _load("a.h5", cyc, node, cs, bp)
-        _write(x, "b.h5")
-        z = _load("b.h5", cyc, node, cs, bp)
+        try:
+            _write(r, "a.h5")
+        except (TypeError, ValueError) as e:
+            raise Unwritable(type(e).__name__)
+        try:
+            x = _load("a.h5", cyc, node, cs, bp)
+            y = _load("a.h5", cyc, node, cs, bp)
+        except Exception as e:
+            found.append(("c04/load-raises/" + type(e).__name__, "loading the file just written raises %r" % (e,)))
+        if x is not None and y is not None:
+            try:
+                _write(x, "b.h5")
+                z = _load("b.h5", cyc, node, cs, bp)
+            except Exception as e:
+                found.append(("c04/rewrite-load-raises/" + type(e).__name__, "writing the loaded reactor and loading that file raises %r" % (e,)))
     finally:
         os.chdir(cwd)
         shutil.rmtree(d, ignore_errors=True)
@@ -314,19 +355,27 @@ def check_state(r, cs, bp):
     # composition; bring the original to the same footing through the same public call.
     r.core.setBlockMassParams()
     oa = _observe(r, True)
+    canon = _ranked_digest(oa)
+    if x is None or y is None:
+        return found, canon, None, {"nodes": _count(oa)}
     if _is_sorted(x):
         ox = oxs = _observe(x, False)
     else:
         found.append(("c04/loaded-children-not-sorted", "children of the loaded reactor are not in sorted order although sortReactor is on"))
         ox, oxs = _observe(x, False), _observe(x, True)
+    tainted = {}
+    found += compare(oa, oxs, "write-load", tainted=tainted)
+    gx = observe.digest(ox)
     oy = _observe(y, False)
-    oz = _observe(z, False)
-    found += compare(oa, oxs, "write-load")
-    found += compare(ox, oy, "load-twice")
-    found += compare(ox, oz, "rewrite-load")
+    if observe.digest(oy) != gx:
+        found += compare(ox, oy, "load-twice", tainted=tainted)
+    if z is not None:
+        oz = _observe(z, False)
+        if observe.digest(oz) != gx:
+            found += compare(ox, oz, "rewrite-load", tainted=tainted)
     if x is y or x.core is y.core:
         found.append(("c04/load-twice/shared-objects", "two loads returned the same objects"))
-    return found, _ranked_digest(oa), _ranked_digest(oxs), {"nodes": _count(oa)}
+    return found, canon, _ranked_digest(oxs), {"nodes": _count(oa)}
 
 
 def _count(d):
@@ -346,9 +395,13 @@ def expand(item):
         out = ops.apply(r, cs, tg, op)
         if k < len(item["outs"]) and out != item["outs"][k]:
             raise RuntimeError("prefix replay diverged at %d: %s != %s" % (k, out, item["outs"][k]))
-    found, canon, loaded, st = check_state(r, cs, bp)
+    try:
+        found, canon, loaded, st = check_state(r, cs, bp)
+    except Unwritable as e:
+        # not a C04 question: nothing was saved. The state is counted and not extended.
+        return {"canon": "unwritable:%s:%s" % (e, item["hist"]), "full": None, "viols": [], "ops": [], "out": "unwritable:%s" % e, "terminal": True, "suppressed": {}, "nodes": 0}
     base = set(init.get("base_keys", ()))
-    case = {"init": {k: v for k, v in init.items() if k not in ("base_keys", "depth")}, "hist": item["hist"], "outs": list(item["outs"][: max(0, len(item["hist"]) - 1)]) + ([out] if item["hist"] else [])}
+    case = {"init": {k: v for k, v in init.items() if k not in ("base_keys", "levels")}, "hist": item["hist"], "outs": list(item["outs"][: max(0, len(item["hist"]) - 1)]) + ([out] if item["hist"] else [])}
     viols, seen, suppressed = [], {}, {}
     for key, msg in found:
         if key in base:
@@ -357,7 +410,7 @@ def expand(item):
         seen.setdefault(key, []).append(msg)
     for key, msgs in seen.items():
         viols.append(core.viol(key, "%s after history %s: %s%s" % (init["family"], item["hist"], msgs[0], " (+%d more of this class in this state)" % (len(msgs) - 1) if len(msgs) > 1 else ""), case))
-    terminal = len(item["hist"]) >= init.get("depth", 99)
+    terminal = len(item["hist"]) >= len(init.get("levels") or ["FULL"])
     return {"canon": canon, "full": loaded, "viols": viols, "ops": [] if terminal else ops.enabled(init, item["hist"], tg), "out": out, "terminal": terminal, "suppressed": suppressed, "nodes": st["nodes"]}
 
 
@@ -365,9 +418,91 @@ def evaluate(case):
     return expand({"init": case["init"], "hist": case["hist"], "outs": case.get("outs", [])})["viols"]
 
 
+def selftest():
+    """Sensitivity of the comparison: each deliberate perturbation of a second build of the same
+    reactor must be reported under the expected key; two unperturbed builds must compare equal
+    apart from serial numbers. Raises RuntimeError (harness error) otherwise."""
+    from armi.reactor import grids
+
+    def mk():
+        _restore_masks()
+        r, cs, bp, tg = ops.build_state({"family": "hex3pins"})
+        return r, tg
+
+    def keys(a, b):
+        return {k for k, _ in compare(a, b, "write-load")}
+
+    r0, _ = mk()
+    o0 = _observe(r0, True)
+    r1, _ = mk()
+    same = keys(o0, _observe(r1, True))
+    if same - {"c04/write-load/%s/serial" % g for g in ("Reactor", "Core", "SpentFuelPool", "Assembly", "Block", "Component")}:
+        raise RuntimeError("c04 selftest: two builds of the same spec differ: %s" % sorted(same))
+    if not same:
+        raise RuntimeError("c04 selftest: comparison is blind to serial numbers")
+
+    def p_name(r, tg):
+        tg["B0"].name = "B9999-000"
+
+    def p_nd(r, tg):
+        c = tg["K0.fuel"]
+        c.setNumberDensity("U235", c.getNumberDensity("U235") * (1 + 1e-9))
+
+    def p_param(r, tg):
+        tg["B2"].p.power = 1e-9
+
+    def p_pin(r, tg):
+        c = tg["K0.fuel"]
+        locs = list(c.spatialLocator)
+        ml = grids.MultiIndexLocation(c.parent.spatialGrid)
+        ml.extend(locs[:-1] + [c.parent.spatialGrid[2, 0, 0]])
+        c.spatialLocator = ml
+
+    def p_coord(r, tg):
+        c = tg["K1.duct"]
+        c.spatialLocator = grids.CoordinateLocation(1e-7, 0.0, 0.0, c.spatialLocator.grid)
+
+    def p_link(r, tg):
+        c = tg["K0.bond"]
+        c.p.id = c.getDimension("id", cold=True)
+
+    def p_temp(r, tg):
+        tg["K2.clad"].setTemperature(470.5)
+
+    def p_order(r, tg):
+        a = tg["A0"]
+        kids = list(a)
+        kids[0].spatialLocator, kids[1].spatialLocator = kids[1].spatialLocator, kids[0].spatialLocator
+
+    def p_gridoffset(r, tg):
+        import numpy as np
+
+        tg["P"].spatialGrid.offset = np.array([25.0, 25.0, 1e-6])
+
+    expect = [
+        (p_name, "c04/write-load/Block/name"),
+        (p_nd, "c04/write-load/Component/comp/nd"),
+        (p_param, "c04/write-load/Block/params/power"),
+        (p_pin, "c04/write-load/Component/loc/idx"),
+        (p_coord, "c04/write-load/Component/x/gxyz"),
+        (p_link, "c04/write-load/Component/comp/dims/id"),
+        (p_temp, "c04/write-load/Component/comp/T"),
+        (p_order, "c04/write-load/Block/params/xsType"),
+        (p_gridoffset, "c04/write-load/SpentFuelPool/grid/reduce"),
+    ]
+    for f, want in expect:
+        r2, tg = mk()
+        f(r2, tg)
+        got = keys(o0, _observe(r2, True))
+        if want not in got:
+            raise RuntimeError("c04 selftest: perturbation %s not reported as %s (got %s)" % (f.__name__, want, sorted(k for k in got if not k.endswith("/serial"))[:8]))
+    return len(expect)
+
+
 def run(ctx):
     tier = "quick" if ctx.quick else "thorough"
-    inits = [{"family": f} for f in ops.FAMILIES]
+    ctx.count("selftest_perturbations_detected", selftest())
+    inits = [{"family": f, "seed": ctx.seed} for f in ops.FAMILIES]
     # pre-pass: the initial states. Violation classes already present there are reported from there
     # (shortest counterexample) and not reported again from deeper states, so that the search can
     # go on below them; nothing is suppressed that is not red at the root of the same family.
@@ -380,19 +515,22 @@ def run(ctx):
         for k in base:
             ctx.count("root_class:" + k)
         ctx.count("tree_nodes_" + init["family"], res["nodes"])
-        inits2.append(dict(init, base_keys=base, depth=DEPTH[tier][init["family"]]))
-    st = explore.bfs(ctx, MOD, inits2, depth=max(DEPTH[tier].values()), max_states=MAX_STATES[tier])
+        inits2.append(dict(init, base_keys=base, levels=LEVELS[tier][init["family"]]))
+    st = explore.bfs(ctx, MOD, inits2, depth=max(len(v) for v in LEVELS[tier].values()), max_states=MAX_STATES[tier])
     explore.merge_stats(total, st)
     for o, n in st["ops"].items():
         ctx.count("op_" + o, n)
     for o, n in st["outcomes"].items():
         ctx.count("outcome_" + o, n)
-    explore.finish(ctx, total, extra={"depth": DEPTH[tier], "families": list(ops.FAMILIES), "alphabet_size": {f: len(ops.alphabet({"family": f})) for f in ops.FAMILIES}})
-    ctx.coverage["database_round_trips"] = total.get("traces", 0) + len(roots)
+    explore.finish(ctx, total, extra={"levels": LEVELS[tier], "families": list(ops.FAMILIES), "alphabet_size": {f: {n: len(ops.alphabet({"family": f, "levels": [n]})) for n in ("FULL", "SUB2", "SUB3")} for f in ops.FAMILIES}})
+    ctx.coverage["database_round_trips"] = 5 * (total.get("traces", 0) + len(roots))
+    ctx.coverage["exhaustive"] = True  # every history within the stated level alphabets was executed
+    ctx.coverage["closure_reached"] = False  # bounded depth, not a fixed point of the state space
     ctx.assumptions += [
-        "states = histories of at most DEPTH operations from the c04_ops alphabet (each operation at most once per history) on 4 generated reactors (3-9 assemblies x 2 blocks x 4-6 components + 1 pool assembly); theta-R-Z not covered",
+        "states = every history of length n <= depth whose operations all belong to the level-n alphabet (coverage.levels; FULL/SUB2/SUB3 of c04_ops, each operation at most once per history) on 5 generated reactors (3-9 assemblies x 2 blocks x 2-6 components + 1 pool assembly each): hex third core with blueprint pin lattice, hex full core corners-up, Cartesian quarter and full core, theta-R-Z quarter core",
+        "a state the writer itself refuses (TypeError/ValueError while writing the original) is counted as outcome 'unwritable' and not judged: nothing was saved (value encodability is C05)",
         "parameter values / temperatures / dimensions come from a finite table (one value per kind and object class)",
         "same settings object and same blueprints object for write and load; database files written by this ARMI version only",
-        "mass and block volume (sums associated in a different order after a load) compared to rtol 1e-12, everything else bit-exact",
+        "mass, block volume and the block parameters kgHM/kgFis/puFrac that both sides recompute (sums associated in a different order after a load: sorted children, sorted nuclide keys) compared to rtol 1e-12, everything else bit-exact",
         "violation classes red in a family's initial state are reported there and not re-reported from deeper states of that family",
     ]
